@@ -4,7 +4,7 @@ open Sshuttle Sshuttle.Alloc
 structure St where
   max : Nat := Generated.MAX_CHANNEL
   probes : Nat := Generated.ALLOC_PROBES
-  t : Table := {}
+  t : Timed := {}
 
 def kindOf (s : String) : Option Kind :=
   if s == "tcp" then some .tcp else if s == "dns" then some .dns else if s == "udp" then some .udp else none
@@ -19,9 +19,17 @@ def showOut : Out → String
   | .delivered k f => s!"delivered {kindStr k} {f}"
   | .dropped => "dropped"
 
-def showTable (t : Table) : String :=
+def showTOut : TOut → String
+  | .base o => showOut o
+  | .ticked => "ticked"
+  | .sent c => s!"sent {c}"
+  | .nosuch => "nosuch"
+
+def showTable (s : Timed) : String :=
+  let t := s.t
   let ids := (t.live.map (·.1)).mergeSort (· ≤ ·)
-  s!"chani={t.chani} ids={",".intercalate (ids.map toString)}"
+  let held := (s.dl.map (·.1)).mergeSort (· ≤ ·)
+  s!"chani={t.chani} ids={",".intercalate (ids.map toString)} held={",".intercalate (held.map toString)}"
 
 def step (s : St) (line : String) : St × List String :=
   match words line with
@@ -31,8 +39,22 @@ def step (s : St) (line : String) : St × List String :=
     | _, _ => (s, ["bad-op"])
   | ["new", m, p, ch] =>
     match m.toNat?, p.toNat?, ch.toNat? with
-    | some m, some p, some ch => ({ max := m, probes := p, t := { chani := ch } }, ["ok"])
+    | some m, some p, some ch => ({ max := m, probes := p, t := { t := { chani := ch } } }, ["ok"])
     | _, _, _ => (s, ["bad-op"])
+  | ["new", m, p, ch, now] =>
+    match m.toNat?, p.toNat?, ch.toNat?, now.toNat? with
+    | some m, some p, some ch, some now => ({ max := m, probes := p, t := { t := { chani := ch }, now := now } }, ["ok"])
+    | _, _, _, _ => (s, ["bad-op"])
+  | ["tick", d] =>
+    match d.toNat? with
+    | some d => let (t, o) := s.t.step s.max s.probes (.tick d)
+                ({ s with t := t }, [showTOut o])
+    | none => (s, ["bad-op"])
+  | ["again", c] =>
+    match c.toNat? with
+    | some c => let (t, o) := s.t.step s.max s.probes (.again c)
+                ({ s with t := t }, [showTOut o])
+    | none => (s, ["bad-op"])
   | ["newdefault"] => ({}, [s!"ok {Generated.MAX_CHANNEL} {Generated.ALLOC_PROBES}"])
   | "next" :: ch :: occ =>
     match ch.toNat?, occ.mapM String.toNat? with
@@ -44,18 +66,18 @@ def step (s : St) (line : String) : St × List String :=
   | ["open", k] =>
     match kindOf k with
     | some k =>
-      let (t, o) := s.t.step s.max s.probes (.open k)
-      ({ s with t := t }, [s!"{showOut o}"])
+      let (t, o) := s.t.step s.max s.probes (.base (.open k))
+      ({ s with t := t }, [showTOut o])
     | none => (s, ["bad-op"])
   | ["close", c] =>
     match c.toNat? with
-    | some c => let (t, o) := s.t.step s.max s.probes (.close c)
-                ({ s with t := t }, [s!"{showOut o}"])
+    | some c => let (t, o) := s.t.step s.max s.probes (.base (.close c))
+                ({ s with t := t }, [showTOut o])
     | none => (s, ["bad-op"])
   | ["frame", c] =>
     match c.toNat? with
-    | some c => let (t, o) := s.t.step s.max s.probes (.frame c)
-                ({ s with t := t }, [s!"{showOut o}"])
+    | some c => let (t, o) := s.t.step s.max s.probes (.base (.frame c))
+                ({ s with t := t }, [showTOut o])
     | none => (s, ["bad-op"])
   | ["table"] => (s, [showTable s.t])
   | ["#flush"] => (s, [])
